@@ -755,6 +755,10 @@ class ExprMixin:
             if isinstance(idx, int):
                 return base[idx]
             raise Unsupported("symbolic index into string", node)
+        if kind_of(base) == "str" and is_sym(base):
+            if isinstance(idx, SliceV) and idx.step is None and idx.stop is None and isinstance(idx.start, int) and idx.start >= 0:
+                return z3.SubString(base, idx.start, z3.Length(base) - idx.start)
+            raise Unsupported("index into a symbolic string other than s[k:]", node)
         if kind_of(base) == "z3array":
             if isinstance(idx, tuple):
                 return base[tuple(to_z3(i, "int") for i in idx)] if len(idx) != 2 else z3.Select(base, to_z3(idx[0], "int"), to_z3(idx[1], "int"))
